@@ -117,10 +117,13 @@ def consumer_case(case):
     if setting == 'IN_APP_EXCLUDE':
         pc['kind'] = 'app_frame'
         pc['code']['APP_ROOT'] = '/x/app'
-        pc['paths'] = ['/x/app/ex1/m.py', '/x/app/ex2/m.py', '/x/app/ok/m.py']
+        # the interpreter's own files (a virtualenv inside the application root) are never the application's: the same
+        # in all three forms
+        pc['paths'] = ['/x/app/ex1/m.py', '/x/app/ex2/m.py', '/x/app/ok/m.py', '<exec_prefix>/lib/site.py']
+        pc['code']['APP_ROOT'] = '/'
         res = probe(pc)
         fr = res.get('frames')
-        ok = fr is not None and fr[0][0] is False and fr[1][0] is False and fr[2][0] is True
+        ok = fr is not None and fr[0][0] is False and fr[1][0] is False and fr[2][0] is True and fr[3][0] is False
         return 'both_prefixes_are_excluded' if ok else 'frames %s' % res
     if setting in ('IN_APP_EXCLUDE_trailing_comma', 'IN_APP_INCLUDE_empty', 'IN_APP_EXCLUDE_empty'):
         pc['kind'] = 'app_frame'
@@ -151,16 +154,26 @@ def path_cases(c, cases):
     from deep.config import ConfigService
     from deep.config.tracepoint_config import TracepointConfigService
 
-    def s(seq):
-        return '/' + '/'.join(seq) + '/'
-    for st in cases:
+    import pathlib
+    # three renderings of the segment sequences of the model. 'closed': prefixes end in a separator (text prefix and
+    # path prefix coincide). 'open': prefixes are given the way deep.start() computes the root - no trailing separator -
+    # and one segment's text begins with the other's ('/app' against '/app-vendor/...'): "under" is about PATHS.
+    # 'pathlib': the prefixes are given in code as pathlib.Path objects.
+    names = {'closed': {'a': 'a', 'b': 'b'}, 'open': {'a': 'app', 'b': 'app-vendor'}, 'pathlib': {'a': 'app', 'b': 'app-vendor'}}
+    for st, rendering in [(st_, r_) for st_ in cases for r_ in ('closed', 'open', 'pathlib')]:
+        def s(seq, rendering=rendering):
+            return '/' + '/'.join(names[rendering][x] for x in seq) + ('/' if rendering == 'closed' else '')
         case, exp = st['case'], st['expected']
-        file = s(case['file']) + 'm.py'
+        file = s(case['file']) + ('' if rendering == 'closed' else '/') + 'm.py'
         inc = sorted(s(p) for p in case['inc'])
         exc = sorted(s(p) for p in case['exc'])
         root = s(case['root'])
-        cfg = ConfigService({'IN_APP_INCLUDE': inc, 'IN_APP_EXCLUDE': exc, 'APP_ROOT': root},
-                            tracepoints=TracepointConfigService())
+        if rendering == 'pathlib':
+            cfg = ConfigService({'IN_APP_INCLUDE': [pathlib.Path(x) for x in inc], 'IN_APP_EXCLUDE': [pathlib.Path(x) for x in exc],
+                                 'APP_ROOT': pathlib.Path(root)}, tracepoints=TracepointConfigService())
+        else:
+            cfg = ConfigService({'IN_APP_INCLUDE': inc, 'IN_APP_EXCLUDE': exc, 'APP_ROOT': root},
+                                tracepoints=TracepointConfigService())
         try:
             app, match = cfg.is_app_frame(file)
             bad = None
@@ -168,6 +181,7 @@ def path_cases(c, cases):
                 bad = 'app flag %s, expected %s (by %s)' % (app, exp['app'], exp['by'])
             else:
                 pool = {'exclude': exc, 'include': inc, 'root': [root], 'none': [None]}[exp['by']]
+                match = match if match is None else str(match)
                 if match not in pool or (match is not None and not file.startswith(match)):
                     bad = 'matched prefix %r, expected one of %s' % (match, pool)
             if bad is None:
@@ -178,8 +192,9 @@ def path_cases(c, cases):
                     is_app_frame = staticmethod(cfg.is_app_frame)
                 fc = FrameCollector(Src(), None)
                 short, flag = fc.parse_short_name(file)
-                want = file if exp['by'] == 'none' else '/'.join(list(exp['short']) + ['m.py'])
-                if short != want or bool(flag) != bool(exp['app']):
+                want = file if exp['by'] == 'none' else '/'.join([names[rendering][x] for x in exp['short']] + ['m.py'])
+                # (a prefix given without its trailing separator leaves that separator at the front of the short path)
+                if (short != want and not (rendering != 'closed' and short == '/' + want)) or bool(flag) != bool(exp['app']):
                     bad = 'short path %r (app=%s), expected %r' % (short, flag, want)
                 # the frames of ONE stack are named by one collector, one after the other: what a frame is called does
                 # not depend on the frames named before it
@@ -187,7 +202,7 @@ def path_cases(c, cases):
                     if bad:
                         break
                     fc2 = FrameCollector(Src(), None)
-                    fc2.parse_short_name(p_ + 'zz.py')
+                    fc2.parse_short_name(p_ + ('' if rendering == 'closed' else '/') + 'zz.py')
                     again = fc2.parse_short_name(file)
                     if (again[0], bool(again[1])) != (short, bool(flag)):
                         bad = 'named %r (app=%s) after a frame of %szz.py in the same stack, %r (app=%s) on its own' % (
@@ -195,11 +210,11 @@ def path_cases(c, cases):
         except BaseException as ex:
             bad = 'is_app_frame raised %r' % (ex,)
         c.traces_validated += 1
-        c.note_case(key=('path', file, str(inc), str(exc), root), nontrivial=bool(inc or exc))
+        c.note_case(key=('path', rendering, file, str(inc), str(exc), root), nontrivial=bool(inc or exc))
         if bad:
-            path = c.save_replay({'direction': 'S2C', 'module': 'ConfigResolve', 'table': 'path', 'file': file,
+            path = c.save_replay({'direction': 'S2C', 'module': 'ConfigResolve', 'table': 'path', 'file': file, 'rendering': rendering,
                                   'include': inc, 'exclude': exc, 'root': root, 'what': bad})
-            c.violation('is_app_frame(%s) with include=%s exclude=%s root=%s: %s' % (file, inc, exc, root, bad), path)
+            c.violation('is_app_frame(%s) with include=%s exclude=%s root=%s (%s): %s' % (file, inc, exc, root, rendering, bad), path)
             if len(c.violations) >= 6:
                 return
 
@@ -210,8 +225,7 @@ def run(c):
               'text in code / DEEP_ environment variable), each run in a fresh interpreter against the real consumer '
               '(poll timer, channel creation, auth metadata, app-frame test, deep.start APP_ROOT), and 448 path cases '
               'against is_app_frame; non-trivial = an environment or non-default form / a non-empty prefix list')
-    c.assumptions = ['sys.exec_prefix is only part of the exclude list when IN_APP_EXCLUDE is not given in code',
-                     'grpc.insecure_channel / secure_channel are replaced by recorders in the probe interpreter']
+    c.assumptions = ['grpc.insecure_channel / secure_channel are replaced by recorders in the probe interpreter']
     r = c.mc('ConfigResolve', dict(invariants=INVS, deadlock=False), label='four tables', dump=True, coverage=False)
     states = [to_json(s) for s in r.graph.states.values()]
     c.exhaustive = True
